@@ -44,6 +44,15 @@ if __name__ == "__main__":
     E["fixed-C17-optimize_width-repeated-last-row"] = ("C17", [RLE([{"cells": [{"v": 1}]}, {"cells": [{"v": 2}], "r": 3}]), LAW("optimize_width")], "pass")
     E["fixed-C17-optimize_width-no-rows"] = ("C17", [{"op": "init", "family": "empty", "attached": False}, LAW("optimize_width")], "pass")
     E["fixed-C17-transpose-area-short-rows"] = ("C17", [RLE([{"cells": [{"v": 1}]}, {"cells": [{"v": 2}, {"v": 3}]}, {"cells": [{"v": 7}, {"v": 8}, {"v": 9}]}], cols=[{"r": 3}]), LAW("transpose2_area", area={"a": [1, 0, 2, 1]})], "pass")
+    SAVE = lambda **kw: dict({"op": "save", "packaging": "zip", "target": "bytesio", "pretty": False}, **kw)
+    E["fixed-C03-set_part-after-parse"] = ("C03", [{"op": "init", "source": "template:text"}, {"op": "touch", "part": "content"}, {"op": "set_part", "kind": "xml", "n": 1, "name": "content.xml"}, SAVE()], "pass")
+    E["fixed-C03-set_part-folder-src"] = ("C03", [{"op": "init", "source": "sample:example.odt", "how": "folder", "salt": 0}, {"op": "set_part", "kind": "xml", "n": 1, "name": "meta.xml"}, {"op": "touch", "part": "meta"}, SAVE()], "pass")
+    E["fixed-C03-flat-xml-image"] = ("C03", [{"op": "init", "source": "sample:chart.odt", "how": "path", "salt": 0}, SAVE(packaging="xml", target="path")], "pass")
+    E["fixed-C04-del_part-manifest"] = ("C04", [{"op": "init", "source": "template:spreadsheet"}, {"op": "del_part", "name": "Thumbnails/thumbnail.png"}, SAVE()], "pass")
+    E["fixed-C04-add_file-twice"] = ("C04", [{"op": "init", "source": "template:text"}, {"op": "add_file", "via": "path", "content": 0}, {"op": "add_file", "via": "pathobj", "content": 0}, SAVE()], "pass")
+    E["fixed-C04-clone-folder"] = ("C04", [{"op": "init", "source": "sample:list.odt", "how": "folder", "salt": 0}, {"op": "clone_swap"}, SAVE()], "pass")
+    E["fixed-C04-clone-drops-unsaved"] = ("C04", [{"op": "init", "source": "sample:table.odt", "how": "path", "salt": 0}, {"op": "add_file", "via": "pathobj", "content": 2}, {"op": "clone_swap"}, SAVE()], "pass")
+    E["C04-empty-dir-entry-after-del_part"] = ("C04", [{"op": "init", "source": "sample:md_style.odt", "how": "path", "salt": 0}, {"op": "edit", "kind": "image", "n": 1}, {"op": "del_part", "name": "Pictures/ceddccf10506d07cc0990639e79f8c72.png"}, SAVE()], "violation")
     for fid, (prop, ops, expect) in E.items():
         if which and fid not in which:
             continue
